@@ -494,6 +494,12 @@ func init() {
 						out.Violate("C08|lint-value:"+l.Name, "filtered registry holds a different OCSP lint value", f, nil, nil)
 					}
 				}
+				if fr.GetConfiguration() != g.GetConfiguration() {
+					out.Violate("C08|config-not-inherited", "filtered registry does not carry the source registry's configuration", f, nil, nil)
+				}
+				if !sort.StringsAreSorted(fr.Names()) {
+					out.Violate("C08|names-unsorted", "Names() of the filtered registry is not sorted", f, nil, nil)
+				}
 				// a new registry: configuring it must leave the source registry's configuration alone (options that happen
 				// to select every lint included)
 				if !f.opts().Empty() {
@@ -504,14 +510,7 @@ func init() {
 							out.Violate("C08|filtered-is-source", fmt.Sprintf("configuring the registry returned by Filter changed the configuration of the registry that was filtered (the options select %d of %d lints)", len(fr.Names()), len(names)), f, "an independent registry", "the source registry itself")
 							g.SetConfiguration(before)
 						}
-						fr.SetConfiguration(before)
 					}
-				}
-				if fr.GetConfiguration() != g.GetConfiguration() {
-					out.Violate("C08|config-not-inherited", "filtered registry does not carry the source registry's configuration", f, nil, nil)
-				}
-				if !sort.StringsAreSorted(fr.Names()) {
-					out.Violate("C08|names-unsorted", "Names() of the filtered registry is not sorted", f, nil, nil)
 				}
 			}
 			if class == "unknown" || class == "exclusive" {
